@@ -5,14 +5,14 @@ wt, name, flt = sys.argv[1:4]
 out = subprocess.run(["/verif/tools/verify_seed.py", wt, flt], stdout=subprocess.PIPE, text=True).stdout
 print(out)
 res = json.loads(out)
-ok = res.get("patch_applies") and res.get("only_demo_fails") and res["demo_without_patch"][1] == 0 and res["demo_without_patch"][0] > 0
+ok = res.get("confirmed")
 if not ok:
     print("NOT CONFIRMED"); sys.exit(1)
 dst = os.path.join("/verif/seeded", name)
 shutil.rmtree(dst, ignore_errors=True)
 shutil.copytree(os.path.join(wt, "SEED"), dst)
 m = json.load(open(os.path.join(dst, "meta.json")))
-m["confirmed_by_me"] = {"ran": "tools/verify_seed.py (fresh worktree of /repo HEAD: demo only -> pass; demo+patch -> original suite passes, only demo tests fail)", "result": res}
+m["confirmed_by_me"] = {"ran": "tools/verify_seed.py (fresh worktree of /repo HEAD: demo only -> passes; patch only -> repository suite passes; demo+patch -> demo fails)", "result": res}
 m.setdefault("caught_by", {})
 json.dump(m, open(os.path.join(dst, "meta.json"), "w"), indent=1)
 print("imported", dst)
